@@ -75,6 +75,15 @@ def run(ck):
             add(f"rep{k}_{op.split()[0]}", ["w 5", f"{op} {rep}", "snap"], ("rep", tag, op, err))
             ck.count(("rep", tag, op), kind="representation: " + tag)
     script = "\n".join(lines) + "\n"
+    # the same point checked twice / constant-point entry points called repeatedly in one composer: every call emits its gates
+    Pm = J.random_subgroup_point(rng)
+    for k_, L_ in enumerate([["w " + hx(Pm[0]), "w " + hx(Pm[1]), "tors $0 $1", "tors $0 $1", "snap"],
+                             [f"cpt {e(Pm, 1)}", f"cpt {e(Pm, 1)}", f"cpt {e(J.ID, 1)}", "snap"],
+                             ["w 5", f"mulgen $0 {e(J.GEN, 1)}", f"mulgen $0 {e(J.GEN, 1)}", "snap"],
+                             ["w " + hx(Pm[0]), "w " + hx(Pm[1]), "tors $0 $1", "w 5", f"mulgen $2 {e(J.GEN, 1)}", "tors $0 $1", "snap"]]):
+        add(f"multi{k_}", L_, ("multi", "repeated calls", Pm, True))
+        ck.count(("multi", k_), kind="repeated calls in one composer")
+    script = "\n".join(lines) + "\n"
     rc, out_c, err_c = run_harness(script, "c13", "composer", checked=True)
     if rc != 0: raise BuildError("checked harness failed: " + err_c[-1500:])
     impl = split_programs(out_c)
